@@ -154,7 +154,8 @@ class TerminalModel:
         if self.al_error_at is not None \
                 and self.al_status_reads == self.al_error_at:
             self.al_error = True
-            self.al_code = 0x1b  # sync manager watchdog
+            # sync manager watchdog; some devices leave the code at 0
+            self.al_code = getattr(self, "al_error_code", 0x1b)
             self.al_pending = None
             if self.al_state > SAFEOP or self.al_state == OP:
                 self.al_state = SAFEOP
